@@ -159,6 +159,17 @@ func registerVerifModels(e *Engine) {
 	own("verifImplies", func(fr *frame, fn *ssa.Function, args []value) value {
 		return fr.or(fr.not(args[0]), args[1])
 	})
+	own("verifIte", func(fr *frame, fn *ssa.Function, args []value) value {
+		c, a, b := args[0], args[1], args[2]
+		if cb, ok := c.(bool); ok {
+			if cb {
+				return a
+			}
+			return b
+		}
+		st := fr.p.st
+		return fromTerm(st.Ite(c.(sym).T, fr.boolTerm(a), fr.boolTerm(b)), types.Bool)
+	})
 	own("verifTier", func(fr *frame, fn *ssa.Function, args []value) value { return fr.p.eng.Tier })
 	own("verifUnwind", func(fr *frame, fn *ssa.Function, args []value) value {
 		fr.p.unwindBound = int(fr.concreteInt(args[0]))
